@@ -324,6 +324,7 @@ def select__child_path(self: XPathToken, context: ta.ContextType = None) \
         yield from self[0].select(context)
     else:
         items: set[ta.ItemType] = set()
+        results: list[ta.ItemType] = []
         for _ in self[0].select_with_focus(context):
             if not isinstance(context.item, XPathNode):
                 msg = f"Intermediate step contains an atomic value {context.item!r}"
@@ -331,16 +332,21 @@ def select__child_path(self: XPathToken, context: ta.ContextType = None) \
 
             for result in self[1].select(context):
                 if not isinstance(result, XPathNode):
-                    yield result
+                    results.append(result)
                 elif result in items:
                     pass
                 elif isinstance(result, ElementNode):
                     if result.value not in items:
                         items.add(result)
-                        yield result
+                        results.append(result)
                 else:
                     items.add(result)
-                    yield result
+                    results.append(result)
+
+        if len(items) == len(results):
+            # Only nodes: the result of a path expression is in document order
+            results.sort(key=node_position)
+        yield from results
 
 
 @method('//')
@@ -351,6 +357,7 @@ def select__descendant_path(self: XPathToken, context: ta.ContextType = None) \
         raise self.missing_context()
     elif len(self) == 2:
         items: set[ta.ItemType] = set()
+        results: list[ta.ItemType] = []
         for _ in self[0].select_with_focus(context):
             if not isinstance(context.item, XPathNode):
                 raise self.error('XPTY0019')
@@ -358,16 +365,21 @@ def select__descendant_path(self: XPathToken, context: ta.ContextType = None) \
             for _ in context.iter_descendants():
                 for result in self[1].select(context):
                     if not isinstance(result, XPathNode):
-                        yield result
+                        results.append(result)
                     elif result in items:
                         pass
                     elif isinstance(result, ElementNode):
                         if result.value not in items:
                             items.add(result)
-                            yield result
+                            results.append(result)
                     else:
                         items.add(result)
-                        yield result
+                        results.append(result)
+
+        if len(items) == len(results):
+            # Only nodes: the result of a path expression is in document order
+            results.sort(key=node_position)
+        yield from results
 
     else:
         if isinstance(context.document, DocumentNode):
